@@ -302,8 +302,8 @@ Theorem base64_wrapper_stream_roundtrip :
 Proof. exact Proofs.C01_base64.base64_wrapper_stream_roundtrip_proof. Qed.
 Print Assumptions base64_wrapper_stream_roundtrip.
 
-(* ---- composite serializers (serializers/composite.py).  [stapled_class] is regenerated from the `match` of
-   StapledPacketSerializer.__new__ on every run (Gen/ParamsC01.v). *)
+(* ---- composite serializers (serializers/composite.py).  [stapled_class] is regenerated on every run as the complete
+   table of the dispatch of StapledPacketSerializer.__new__ (Gen/ParamsC01.v: real constructors on every combination). *)
 
 (* The stapled class built for a pair of serializers is decided by the RECEIVED half (and needs an incremental SENT half):
    for every capability of the two halves (0 one-shot, 1 incremental, 2 buffered) and every constructor call the
